@@ -16,9 +16,14 @@ Perm(vs) == LET pairs == [i \in DOMAIN vs |-> <<vs[i], i>>]
             IN [i \in DOMAIN sorted |-> sorted[i][2]]
 SameKind(vs) == vs # <<>> /\ ((\A i \in DOMAIN vs : vs[i].k = "num") \/ (\A i \in DOMAIN vs : vs[i].k = "str"))
 FirstIdx(vs, x) == CHOOSE i \in DOMAIN vs : vs[i] = x /\ \A j \in 1..(i - 1) : vs[j] # x
+\* nulls among numbers (or among strings): null is the smallest value of the order, so min is the first null and max ignores them
+NonNull(vs) == SelectSeq(vs, LAMBDA v : v.k # "null")
+WithNulls(vs) == (\E i \in DOMAIN vs : vs[i].k = "null") /\ SameKind(NonNull(vs))
 Row(s) == LET vs == Vals(s) IN
   [t |-> "seq", s |-> s, perm |-> Perm(vs), mm |-> SameKind(vs),
-   min |-> IF SameKind(vs) THEN FirstIdx(vs, MinOf(vs)) ELSE 0, max |-> IF SameKind(vs) THEN FirstIdx(vs, MaxOf(vs)) ELSE 0]
+   min |-> IF SameKind(vs) THEN FirstIdx(vs, MinOf(vs)) ELSE 0, max |-> IF SameKind(vs) THEN FirstIdx(vs, MaxOf(vs)) ELSE 0,
+   nn |-> WithNulls(vs),
+   minn |-> IF WithNulls(vs) THEN FirstIdx(vs, D[1]) ELSE 0, maxn |-> IF WithNulls(vs) THEN FirstIdx(vs, MaxOf(NonNull(vs))) ELSE 0]
 \* long inputs: few distinct keys, position-dependent pattern (Go's sort switches algorithm above 12 elements)
 Long(n, m, c) == [i \in 1..n |-> ((i * i + c * i) % m) + 4]       \* indices 4.. of D: the numbers -1,1,1.0,2,...
 LongRows == { [t |-> "long", s |-> Long(n, m, c), perm |-> Perm(Vals(Long(n, m, c)))] : n \in {13, 14, 21, 40}, m \in {2, 3, 5}, c \in {0, 1, 3} }
